@@ -261,45 +261,62 @@ def run(ctx, rep):
                 return w
         return None
 
-    # stop-bit / page-counter step function, decided per concrete stop_bit value (all 256): the events of check() are
-    # collected under the assumption stop_bit == v, so the rule does not depend on how the match / ifs / helpers are written
+    # stop-bit / page-counter step function, decided on witness headers: check() is evaluated for every stop_bit value
+    # (all 256) × page counter as expected / off by one, on an otherwise all-zero header following an all-zero header
+    # (every other running rule is then silent): the verdict and the new expected page counter are compared with the
+    # documented step function — independent of how the match / ifs / helpers / error strings are written
     sb_lo, sb_w = R["stop_bit_1"]["guard"]["bits"][1], R["stop_bit_1"]["guard"]["bits"][0] - R["stop_bit_1"]["guard"]["bits"][1] + 1
-    pg_ne = ckey(oracle_cond(R["stop_bit_0"]["cond"], root))
-    strip = lambda g: tuple(x for x in g if x not in ("true", "not false"))
-    live = lambda o: not any(x in ("false", "not true") for x in o["guard"])
-    others_ok, others_bad = 0, []
+    pc_hi, pc_lo = R["stop_bit_0"]["cond"]["bits"]
+    EXP, INC = 5, 3
+    step_bad = {"stop_bit_0|compare": [], "stop_bit_0|update": [], "stop_bit_1|compare": [], "stop_bit_1|update": [], "stop_bit|other": []}
+    n_step = 0
     for v in range(1 << sb_w):
-        ev.assume = {}
-        ev.assume_bits(root, sb_lo, sb_w, v)
-        ev.watch = lambda c: c.endswith("::write_fmt") or c.endswith("::write_str") or c.endswith("String::push_str") or c.endswith("String::push")
-        try:
-            o_v = ev.collect_ifs(RUN + "check", [selfr, Obj(root, 0, RC)], follow=lambda c: c.startswith(RUN))
-        finally:
+        for pages in (EXP, EXP + 1):
             ev.assume = {}
-            ev.watch = None
-        o_v = [o for o in o_v if live(o)]
-        cmp_v = [(strip(o["guard"]), o["where"]) for o in o_v if "cond" in o and ckey(o["cond"]) == pg_ne]
-        upd_v = [(o["assign"][:3], strip(o["guard"]), o["where"]) for o in o_v if "assign" in o and o["assign"][1] == "sym(EXPECT)"]
-        txt_v = [(strip(o["guard"]), o["where"]) for o in o_v if "call" in o and "sym(var:" not in o["args"][1] and "LAST[" not in o["args"][1]]
-        if v in (0, 1):
-            nm = "stop_bit_%d" % v
-            ent = R[nm]
-            ok = len(cmp_v) == 1 and cmp_v[0][0] == () and [g for g, w in txt_v] == [(pg_ne,)]
-            rep.check(ok, "R10.2", "R10.2|%s|compare" % nm, "stop_bit == %d: error text written iff %s" % (v, pg_ne), cmp_v[0][1] if cmp_v else RUN,
-                      "running check with stop_bit == %d: expected exactly one unguarded test %s guarding the only error text; tests %s, error texts under %s" % (
-                          v, pg_ne, cmp_v, [g for g, w in txt_v]))
-            upd = tuple("sym(%s)" % x if x in ("EXPECT", "INCR") else x for x in ent["update"])
-            ok = len(upd_v) == 1 and upd_v[0][0] == upd and upd_v[0][1] == ()
-            rep.check(ok, "R10.2", "R10.2|%s|update" % nm, "stop_bit == %d: exactly one unconditional state update %s" % (v, upd), upd_v[0][2] if upd_v else RUN,
-                      "running check with stop_bit == %d: expected the single unconditional update %s, found %s" % (v, upd, [(a, g) for a, g, w in upd_v]))
-        else:
-            if any(g == () for g, w in txt_v) and not upd_v and not cmp_v:
-                others_ok += 1
-            else:
-                others_bad.append((v, [g for g, w in txt_v], [a for a, g, w in upd_v]))
-    rep.check(not others_bad and others_ok == (1 << sb_w) - 2, "R10.2", "R10.2|stop_bit|other",
-              "every other stop_bit value (%d values): error text written unconditionally, expected page counter untouched" % others_ok, RUN,
-              "stop_bit values that are neither 0 nor 1 are not reported unconditionally or touch the expected page counter: %s" % others_bad[:4])
+            for r_ in (root, "LAST", "FIRSTR", "SECONDR"):
+                ev.assume_bits(r_, 0, 512, 0)
+            ev.assume_bits(root, sb_lo, sb_w, v)
+            ev.assume_bits(root, pc_lo, pc_hi - pc_lo + 1, pages)
+            slf_ = Agg("RdhCruRunningChecker", "RdhCruRunningChecker", dict(selfr.fields, expect_pages_counter=Bits.const(EXP, 16), expect_pages_counter_increment=Bits.const(INC, 16)))
+            ev.strings = True
+            try:
+                r_ = vkey(ev.call_fn(RUN + "check", [slf_, Obj(root, 0, RC)]))
+                verdict = "Err" if r_.startswith("Result::Err(") else ("Ok" if r_.startswith("Result::Ok(") else r_[:60])
+                recs_ = [o for o in ev.collect_ifs(RUN + "check", [slf_, Obj(root, 0, RC)], follow=lambda c: c.startswith(RUN))
+                         if "assign" in o and (o.get("place") or "").endswith(".expect_pages_counter") and not any(x in ("false", "not true") for x in o["guard"])]
+            except Unsupported as e:
+                verdict, recs_ = "unevaluable %s" % e, []
+            finally:
+                ev.assume = {}
+                ev.strings = False
+            newv = EXP
+            undec = False
+            for o in recs_:
+                if any(x not in ("true", "not false") for x in o["guard"]):
+                    undec = True
+                op_, l_, r2_ = o["assign"][:3]
+                try:
+                    newv = int(r2_, 16) if op_ == "=" else ((newv + int(r2_, 16)) & 0xffff if op_ == "AddAssign" else None)
+                except (TypeError, ValueError):
+                    newv = None
+            n_step += 1
+            want_v = "Err" if (v > 1 or pages != EXP) else "Ok"
+            want_n = (EXP + INC) if v == 0 else (0 if v == 1 else EXP)
+            key_c = "stop_bit_%d|compare" % v if v in (0, 1) else "stop_bit|other"
+            key_u = "stop_bit_%d|update" % v if v in (0, 1) else "stop_bit|other"
+            if verdict != want_v:
+                step_bad[key_c].append("stop_bit=%d pages_counter=%s: verdict %s, expected %s" % (v, "expected" if pages == EXP else "expected+1", verdict, want_v))
+            if undec or newv != want_n:
+                step_bad[key_u].append("stop_bit=%d pages_counter=%s: expected page counter %d → %s, documented %d" % (v, "expected" if pages == EXP else "expected+1", EXP, "undecided" if undec else newv, want_n))
+    for v in (0, 1):
+        rep.check(not step_bad["stop_bit_%d|compare" % v], "R10.2", "R10.2|stop_bit_%d|compare" % v, "stop_bit == %d: error iff pages_counter != expected" % v, RUN,
+                  "running check with stop_bit == %d: %s" % (v, step_bad["stop_bit_%d|compare" % v][:3]))
+        upd = tuple("sym(%s)" % x if x in ("EXPECT", "INCR") else x for x in R["stop_bit_%d" % v]["update"])
+        rep.check(not step_bad["stop_bit_%d|update" % v], "R10.2", "R10.2|stop_bit_%d|update" % v, "stop_bit == %d: the expected page counter becomes %s" % (v, "expected + increment" if v == 0 else "0"), RUN,
+                  "running check with stop_bit == %d: %s (documented update %s)" % (v, step_bad["stop_bit_%d|update" % v][:3], upd))
+    rep.check(not step_bad["stop_bit|other"] and n_step == 2 << sb_w, "R10.2", "R10.2|stop_bit|other",
+              "every other stop_bit value (%d values): always an error, expected page counter untouched" % ((1 << sb_w) - 2), RUN,
+              "stop_bit values that are neither 0 nor 1 are not reported unconditionally or touch the expected page counter: %s" % step_bad["stop_bit|other"][:4])
     # increment learnt from the 2nd RDH
     # decided on the three phases of a link: no RDH seen yet / one seen / steady state — the increment is stored
     # exactly in the second phase, from the RDH being checked
